@@ -341,6 +341,9 @@ impl C08 {
         if seq.old.len() > 60_000 {
             out.count("long_anchor_run_cases", 1);
         }
+        if seq.n().min(seq.m()) <= 2 && seq.n().max(seq.m()) >= 1024 {
+            out.count("one_or_two_items_against_a_thousand", 1);
+        }
         let reuse = case.reuse && reusable(case.stack) && case.expire_at.is_none() && !slices;
         let run = |fail_at: Option<usize>| {
             if slices {
@@ -642,6 +645,32 @@ impl Prop for C08 {
             seq.alg = crate::gen::Alg::Patience;
             stack = *rng.pick(&[Stack::H, Stack::ReplaceH, Stack::NoFinishH, Stack::RefMutH]);
         }
+        // at other fixed places: two matched unique items with more than 2^14
+        // items between them on both sides (a gap of more than 2^28 cells)
+        let gap_giant = idx % 25_000 == 8765;
+        if gap_giant {
+            let (o, n) = crate::gen::gen_big_gap(rng);
+            seq.old_range = (0, o.len());
+            seq.new_range = (0, n.len());
+            seq.old = o;
+            seq.new = n;
+            seq.index = crate::gen::IndexKind::Slice;
+            seq.alg = crate::gen::Alg::Patience;
+        }
+        // now and then: one or two items against a thousand or more
+        if !anchor_giant && !gap_giant && rng.below(300) == 0 {
+            let long = 1024 + rng.usize(2000);
+            let big: Vec<u32> = (0..long as u32).map(|i| if rng.chance(1, 2) { i } else { i % 7 }).collect();
+            let small: Vec<u32> = (0..1 + rng.usize(2))
+                .map(|_| if rng.chance(3, 4) { big[rng.usize(long)] } else { 9_999_999 })
+                .collect();
+            let (o, n) = if rng.chance(1, 2) { (small, big) } else { (big, small) };
+            seq.old_range = (0, o.len());
+            seq.new_range = (0, n.len());
+            seq.old = o;
+            seq.new = n;
+            seq.index = crate::gen::IndexKind::Slice;
+        }
         let expire_at = if anchor_giant {
             if rng.chance(3, 4) { Some(rng.below(4)) } else { None }
         } else if seq.old.len() > 4000 {
@@ -659,7 +688,7 @@ impl Prop for C08 {
             slices,
             only_k: None,
             cap: match (tier, size) {
-                _ if anchor_giant => 8,
+                _ if anchor_giant || gap_giant => 8,
                 (_, Size::Large) => 48,
                 (Tier::Quick, _) => 256,
                 _ => 4096,
@@ -742,6 +771,7 @@ impl Prop for C08 {
             ("adapter_reused_for_three_diffs", c("adapter_reused_for_three_diffs")),
             ("through_diff_slices_entry_points", c("through_diff_slices_entry_points")),
             ("long_anchor_run_cases", c("long_anchor_run_cases")),
+            ("one_or_two_items_against_a_thousand", c("one_or_two_items_against_a_thousand")),
             ("cases_with_over_2^24_cells", c("many_cells_cases")),
         ]
     }
